@@ -49,7 +49,22 @@ def generate(rng, tier):
     big = tier == "thorough"
     sizes = [1, 1, 1, 2, 5, 9, 10, 11] + ([20, 31] if big else [])
     mh = MHist()
-    mode = rng.choice(["single", "single", "duo"])
+    mode = rng.choice(["single", "single", "duo"] + (["round"] if big or rng.random() < 0.15 else []))
+    if mode == "round":
+        # histories whose total reaches a round number (10^k) with many packs: the digit-sum bound collapses
+        # from 9k to 1 there, so the whole collection must be combined at once
+        top = rng.choice([100, 1000])
+        batches = []
+        unit = top // 10
+        while unit >= 1:
+            batches += [unit] * 9
+            unit //= 10
+        if rng.random() < 0.5:
+            rng.shuffle(batches)
+        batches.append(1)
+        if rng.random() < 0.3:
+            batches += [rng.choice([1, 9, 10])]
+        return {"fmt": fmt, "mode": "single", "src": {"gen": [rng.getrandbits(32), sum(batches)]}, "batches": batches}
     if mode == "single":
         batches = []
         total = 0
@@ -68,6 +83,13 @@ def generate(rng, tier):
     cuts = {}
     for name in "AB":
         cuts[name] = sorted({rng.randint(1, n) for _ in range(rng.randint(2, 6))})
+    if rng.random() < 0.5:
+        # both writers cross a digit-sum boundary together: k single-revision packs, then A and B each add
+        # one pack while the bound collapses (9 -> 1 at 10, 10 -> 2 at 20): each one's autopack obsoletes
+        # the packs the other has just planned to combine, which sends that one round its retry loop
+        k = rng.choice([9, 9, 19])
+        a, b = rng.sample([k + 1, k + 2, k + 3], 2)
+        return {"fmt": fmt, "mode": mode, "src": src if n > k + 3 else gen_chain(rng, MHist(), None, k + 3, "s"), "actors": {"A": [a], "B": [b]}, "policy": rng.choice(["random", "random", "pct"]), "preempt_at": sorted(rng.sample(range(5, 1500), 12)), "pre_singles": k}
     return {"fmt": fmt, "mode": mode, "src": src, "actors": cuts, "policy": rng.choice(["random", "pct", "rr"]), "preempt_at": sorted(rng.sample(range(5, 3000), 6)), "pre_singles": rng.choice([0, 4, 8])}
 
 
@@ -79,6 +101,11 @@ def execute(sim, plan):
     world.install_clock(sim, ["breezy.lockdir"])
     fmt = plan["fmt"]
     src = plan["src"]
+    if isinstance(src, dict):
+        # compact form for long chains (keeps replay files small): expanded here, deterministically
+        import random
+
+        src = gen_chain(random.Random(src["gen"][0]), MHist(), None, src["gen"][1], "s")
     url_s = world.new_store("src")
     url = world.new_store("tgt")
     sb = storesim.make_branch(url_s + "s", fmt)
@@ -124,10 +151,15 @@ def execute(sim, plan):
         orig_auto = storesim._pins["do_autopack"] = pack_repo.RepositoryPackCollection._do_autopack
         from simkit.sim import CTX
 
-        def _do_autopack(self):
+        def _do_autopack(self, *args, **kwargs):
             s = getattr(CTX, "sim", None)
             post = getattr(s, "autopack_post", None) if s is not None else None
-            r = orig_auto(self)
+            try:
+                r = orig_auto(self, *args, **kwargs)
+            except pack_repo.RetryAutopack:
+                if s is not None:
+                    s.probe("retry_autopack")
+                raise
             if post is not None:
                 post(self, r)
             return r
